@@ -138,6 +138,8 @@ SEED_EXPECT={
  # round 8 (ten properties)
  "C02-8":"R-FLOW/attr","C04-8":"R-SYM/S4","C05-8":"R-CONST/jsondefault","C07-8":"R-CONST/rawbody","C12-8":"R-FLOW/fillall",
  "C13-8":"R-PROV/V2","C14-8":"R-DET/N5","C15-8":"R-SYM/S7i","C16-8":"R-CONST/topicmsg","C17-8":"R-PROV/V2",
+ "C01-8":"R-SYM/memberloop","C03-8":"R-SYM/presence","C06-8":"R-ERR/rollback","C08-8":"R-EXH/rootkind","C09-8":"R-CONST/escapes",
+ "C10-8":"R-ERR/rollback","C11-8":"R-POS/samesource","C18-8":"R-PANIC/P4m","C19-8":"R-CONST/gap","C20-8":"R-FLOW/sign",
 }
 # seeds kept on record that no rule is meant to see (see DESIGN.md §10.4): not part of the self-test
 UNCOVERED=set()
